@@ -519,3 +519,14 @@ def _rename_binding(body, name, new):
                 rec(v)
 
     rec(body)
+
+
+def inline_lets(e, body):
+    """`e` with every name that is an immutable simple `let` of `body` replaced by its definition (deeply)"""
+    from pathcond import _subst
+
+    env = {}
+    for n in walk(body):
+        if n["k"] == "Local" and n["pat"]["k"] == "PIdent" and n["init"] is not None and not n["pat"].get("mut") and n.get("else") is None:
+            env[n["pat"]["name"]] = n["init"]
+    return _subst(e, env) if env else e
